@@ -24,7 +24,7 @@ ITERS = ['iter', 'drain', 'into_iter']
 # the implementation's observations, or equality with the model's step where the property IS that functional statement.
 PROPS = {
     'C01': dict(
-        comps=['mon_c01', 'fault'],
+        comps=['mon_c01', 'fault'], corr_only=['fault'],
         theorems=['C01_bound', 'C01_arith', 'C01_total', 'C01_monitor_sound'],
         assumptions=['entry_size of every presented pair fits in usize (DESIGN.md 9.2)', '0 < size_of::<Entry<K,V>>() and size_of::<V>() <= size_of::<Entry<K,V>>()'],
     ),
@@ -55,7 +55,7 @@ PROPS = {
         assumptions=['object identity = token carried by the instrumented key/value types; Drop logs the token'],
     ),
     'C07': dict(
-        comps=['mon_c07', 'addr_stable', 'bsim', 'api_map', 'api_len', 'api_order'],
+        comps=['mon_c07', 'addr_stable', 'bsim', 'api_map', 'api_len', 'api_order'], corr_only=['bsim'],
         theorems=['C07_unhinge', 'C07_set_head', 'C07_touch', 'C07_realloc', 'C07_traversal', 'C07_b_touch', 'C07_b_remove', 'C07_b_insert_new', 'C07_b_moves', 'C07_monitor_sound'],
         assumptions=['Layer B faults on access to unallocated/freed nodes and on reading moved-out or uninitialised payloads; aliasing-model UB is outside the model (DESIGN.md 6, 9.1)',
                      'the monitor ri_check (proved sound: C07_monitor_sound) is evaluated on the pointer graph the dangling-safe hook walker reports after every step; bucket addresses of surviving entries must be stable unless the table was rebuilt', 'bsim: the extracted Layer B operations (B/OpsB.v: touch_ptr, unhinge, set_head, move, composed as src/lib.rs composes them) are run on the observed pointer graph before each step and must produce exactly the links and recorded sizes observed after it'],
@@ -84,6 +84,7 @@ PROPS = {
         theorems=['C12_split', 'C12_fused', 'C12_iter', 'C12_drain', 'C12_into_iter'],
     ),
     'C13': dict(
+        corr_only=['cap'],
         comps=['cap', 'clone_cap', 'mon_c13', 'growth'] + [(c, CAPOPS) for c in ('res', 'keyset', 'order', 'ents', 'sizes', 'cur', 'max', 'drops')],
         theorems=['C13_transparent', 'C13_reserve', 'C13_try_reserve_fail', 'C13_shrink', 'C13_shrink_to_fit', 'C13_with_capacity_step', 'C13_auto_growth', 'C13_growth_bounded'],
         assumptions=['Layer T is a demonic abstraction of hashbrown: tombstone creation/reuse is an oracle resolved from the observed capacity; every observed (len, capacity, buckets) transition must be one the model allows',
@@ -102,6 +103,7 @@ PROPS = {
         theorems=['C15_retain'],
     ),
     'C16': dict(
+        corr_only=['panic_state', 'panic_drops'],
         comps=['panic_state', 'panic_drops', 'panic_ri', 'panic_acc', 'panic_nodup', 'panic_bound', 'panic_lost', 'panic_ledger'] +
               [(c, None, 'panic') for c in ('drop_once', 'mon_c07', 'api_map', 'api_len', 'api_order', 'mon_c04', 'addr_stable')],
         theorems=['C16_all_points', 'C16_closure', 'C16_predicate', 'C16_clone'],
